@@ -129,7 +129,7 @@ def rule_a(ctx: Context, R: Reporter, fit: FuncInfo):
                         okv = bool(vals) and all(v > 0 and v != float("inf") and v == v for v in vals) or any(o.kind == "user" for o in origs)
                         R.check("C19.a", f"fallback passed by {fi.short} traces to a finite positive constant", okv, fi, call,
                                 msg=f"{fi.short}: fallback value origins {[repr(o) for o in origs][:3]}", key=f"fallback-origin:{fi.short}:{t.name}")
-    R.floor("C19.a", "internal factory call sites", n_calls, 3)
+    R.floor("C19.a", "internal factory call sites", n_calls, 2)
     # positive bracket for nu
     for c in calls_in(fit.node) + [c for sub in fit.nested.values() for c in calls_in(sub.node)]:
         nm = ctx.res.external_name(fit, c) or ""
